@@ -89,6 +89,13 @@ def cases(tier, seed):
             if x <= 200:
                 out.append({"id": "msm:m=%r:x=%r" % (m, x), "kind": "msm",
                             "m": [complex(m).real, complex(m).imag], "x": x})
+    # one-sphere clusters beyond 32 partial waves (the compiled expansion
+    # order of the multi-sphere solver): accepted by the front end (its size
+    # guard is k r < 1000)
+    for x in (30.0, 50.0):
+        reqs.append(mie_ref.req_homog(1.2, x))
+        out.append({"id": "ms-large:m=1.2:x=%r" % x, "kind": "ms",
+                    "m": [1.2, 0.0], "x": x})
     for seq in _lay_seqs(tier):
         for ip, pat in enumerate(LAY_PATTERNS):
             if tier == "quick" and ip == 1 and len(seq) > 2:
